@@ -268,6 +268,15 @@ def shape_rule(ctx, short: str) -> None:
             at = fv.node_of(sub)
             iters.append((fv.cfg.nodes[at], fv.res.resolve(sub.generators[0].iter, at)))
     if len(iters) != 1:
+        # a vectorised rewrite by boolean mask: table[isin(table', wells)] returns the selected wells in the order of the
+        # *table*, whatever order the argument names them in - the result is no longer the element-wise image
+        for sub in ast.walk(val):
+            if isinstance(sub, ast.Subscript):
+                m = sub.slice
+                if isinstance(m, ast.Call) and call_fname(m) in ("isin", "in1d") and len(m.args) >= 2 and any(is_name(strip_norm(x), arg) for x in ast.walk(m.args[1]) if isinstance(x, (ast.Name, ast.Call))):
+                    ctx.rep.refuted(rule, c + "/iteration", f"the result is selected with the boolean mask `{show(m)[:60]}`: a mask yields the wells in the order of the table, not in the order "
+                                    "of the argument - for an argument that is not in ascending row-major order (reversed, column-major, transposed) the i-th result is not the image of the i-th well", where=w)
+                    return
         ctx.rep.inconclusive(rule, c + "/iteration", f"expected one element-wise iteration, found {len(iters)} (vectorised rewrite?)", where=w)
         return
     it = iters[0][1]
